@@ -5,6 +5,10 @@
 
 using namespace exd;
 
+// defaults only; the ASAN_OPTIONS set by vf still apply on top.  Executions are short and a
+// use-after-free shows up immediately, so a small quarantine keeps 16 shards within memory.
+extern "C" const char *__asan_default_options() { return "quarantine_size_mb=24:detect_leaks=0:allocator_may_return_null=1"; }
+
 static void usage()
 {
   fprintf(stderr,
